@@ -135,6 +135,13 @@ Defect(d) ==
             /\ links' = links \cup {L(cur.last, "+", Id(cnt), "+"), L(cur.last, "+", Id(cnt + 1), "+"), L(Id(cnt), "+", Id(cnt + 2), "+"),
                                     L(Id(cnt + 1), "+", Id(cnt + 2), "+"), L(Id(cnt + 1), "+", Id(cnt + 3), "+")}
             /\ cnt' = cnt + 4
+       [] d = "branchref" ->   \* an snp bubble whose REFERENCE allele carries a dead end: last =(m | x)= y - z with m - t; the only branching
+                               \* is INSIDE the bubble (last, m, y are cut vertices on one cycle, x is not), every scaffold node has two neighbours
+            /\ nodes' = nodes \cup {RefNode(cnt, cur.name, cur.off), AltNode(cnt + 1, cur.name), RefNode(cnt + 2, cur.name, cur.off + 2),
+                                    AltNode(cnt + 3, cur.name), RefNode(cnt + 4, cur.name, cur.off + 4)}
+            /\ links' = links \cup {L(cur.last, "+", Id(cnt), "+"), L(cur.last, "+", Id(cnt + 1), "+"), L(Id(cnt), "+", Id(cnt + 2), "+"),
+                                    L(Id(cnt + 1), "+", Id(cnt + 2), "+"), L(Id(cnt), "+", Id(cnt + 3), "+"), L(Id(cnt + 2), "+", Id(cnt + 4), "+")}
+            /\ cnt' = cnt + 5
        [] d = "join" ->        \* joined to (a piece of) another chromosome through a haplotype node: y - z2 with z1 - z2 - z3 on contig chrZ
             /\ nodes' = nodes \cup {RefNode(cnt, cur.name, cur.off), AltNode(cnt + 1, cur.name), RefNode(cnt + 2, cur.name, cur.off + 2),
                                     [id |-> Id(cnt + 3), sn |-> "chrZ", so |-> 0, ln |-> 2, sr |-> 0], [id |-> Id(cnt + 4), sn |-> "chrZ", so |-> 2, ln |-> 2, sr |-> 0],
@@ -154,7 +161,7 @@ Defect(d) ==
             /\ links' = links \cup {L(cur.last, "+", Id(cnt), "+"), L(Id(cnt), "+", Id(cnt + 4), "+"), L(Id(cnt + 4), "+", Id(cnt + 1), "+"),
                                     L(cur.last, "+", Id(cnt + 1), "+"), L(Id(cnt), "+", Id(cnt + 2), "+"), L(Id(cnt + 1), "+", Id(cnt + 3), "+")}
             /\ cnt' = cnt + 5
-  /\ cur' = [cur EXCEPT !.bad = TRUE]
+  /\ cur' = [cur EXCEPT !.bad = TRUE, !.last = IF d = "branchref" THEN Id(cnt + 4) ELSE @]    \* branchref: the chain goes on behind z
   /\ UNCHANGED chroms
 
 BNext == (\E ek \in EndKinds \cap {"tip", "endsnp"} : Start(ek)) \/ (\E ek \in EndKinds : End(ek)) \/ (\E k \in Kinds : Unit(k))
